@@ -275,7 +275,7 @@ fn shard(ctx: &ShardCtx, known: &Known) -> ShardOut {
     out.extra.insert("dfs".into(), serde_json::json!([{"scenario": {"writers": 2 + (sc.pattern % 2), "increments_each": sc.commits, "readers": sc.readers, "bulk": sc.pattern / 2 % 3, "file_growth": !presized}, "bound": bound, "executions": stats.executions, "complete": stats.complete, "diverged": stats.diverged, "longest_trace": stats.max_trace}]));
     if ok {
         // with a scheduling point at every lock the bounded search covers less of each trace: more random schedules there
-        let n = if sc.lock_yield { ctx.tier.pick(3000, 30000) } else if presized { ctx.tier.pick(2000, 60000) } else { ctx.tier.pick(400, 12000) };
+        let n = if sc.lock_yield { ctx.tier.pick(3000, 15000) } else if presized { ctx.tier.pick(2000, 60000) } else { ctx.tier.pick(400, 12000) };
         for i in 0..n {
             let seed = mix(ctx.shard_seed("c09-rand"), i as u64);
             let sid = if i % 2 == 0 { 1 } else { 2 };
